@@ -251,6 +251,18 @@ def forward_subst(stmts: list[ast.stmt], pure_calls=(), keep: set[str] = frozens
         _ALIASES.pop()
 
 
+def _leaves_function(block) -> bool:
+    """every way through the block ends in return / raise"""
+    if not block:
+        return False
+    s_ = block[-1]
+    if isinstance(s_, (ast.Return, ast.Raise)):
+        return True
+    if isinstance(s_, ast.If):
+        return bool(s_.orelse) and _leaves_function(s_.body) and _leaves_function(s_.orelse)
+    return False
+
+
 def _forward_subst(stmts, pure_calls, keep, nreads):
 
     def free(e):
@@ -288,7 +300,10 @@ def _forward_subst(stmts, pure_calls, keep, nreads):
                     # an alias of an existing object can always be replaced by the path that reaches the object;
                     # a freshly built value only while nothing mutates it through the name
                     _store_kill(env, s)
-                    if is_reference(s.value) or is_scalar(s.value) or (nreads.get(x, 0) <= 1 and not _writes_through(rest, {x})):
+                    if is_reference(s.value) or is_scalar(s.value) or (nreads.get(x, 0) <= 1 and not _writes_through(rest, {x})) \
+                            or (_leaves_function(rest) and sum(1 for r_ in rest for n in ast.walk(r_) if isinstance(n, ast.Name) and n.id == x) == 1
+                                and not _writes_through(rest, {x})):
+                        # (.. or read once in what remains of a block that ends the function: the same temporary name in several arms)
                         env[x] = s.value
                 else:
                     _store_kill(env, s)
